@@ -28,6 +28,10 @@ pub struct Case13 {
     /// of calling the optimizer directly; the gradients are deposited through gradient_mut either way
     #[serde(default)]
     pub via_model: bool,
+    /// the caller keeps NO other handle on the parameters while the optimizer runs (an optimizer that updates in
+    /// place whenever a buffer is unshared takes that path only then); the checks that need an older clone are skipped
+    #[serde(default)]
+    pub no_old_clones: bool,
 }
 
 /// a layer whose only job is to own parameters
@@ -69,7 +73,7 @@ impl Case13 {
             .collect();
         for (r, round) in self.rounds.iter().enumerate() {
             // older clones of every parameter, taken before the gradients are deposited
-            let olds: Vec<Array> = ps.iter().map(|p| p.clone()).collect();
+            let olds: Vec<Array> = if self.no_old_clones { vec![] } else { ps.iter().map(|p| p.clone()).collect() };
             let before: Vec<(Vec<usize>, Vec<Float>, bool)> = ps.iter().map(|p| (p.dimensions().to_vec(), p.values().to_vec(), probe_tracked(p))).collect();
             for (p, g) in ps.iter().zip(round) {
                 if let Some(g) = g {
@@ -84,7 +88,7 @@ impl Case13 {
                 let (bd, bv, bt) = &before[i];
                 let what = format!("round {} parameter {} (dims {:?}, {} of {} parameters, gradient pattern {:?})", r, i, bd, i + 1, ps.len(), round.iter().map(|x| x.is_some() as u8).collect::<Vec<_>>());
                 // older handles never change
-                if olds[i].dimensions() != &bd[..] || bits(olds[i].values()) != bits(bv) {
+                if !self.no_old_clones && (olds[i].dimensions() != &bd[..] || bits(olds[i].values()) != bits(bv)) {
                     return e("old-handle-changed", format!("{}: an older clone changed to dims {:?} values {:?}", what, olds[i].dimensions(), olds[i].values()));
                 }
                 match g {
@@ -121,6 +125,9 @@ impl Case13 {
                         if p.gradient().is_some() {
                             return e("frozen-gradient", format!("{}: a parameter without a gradient holds one after the update", what));
                         }
+                        if self.no_old_clones {
+                            continue;
+                        }
                         // still the same node: a gradient deposited through the older clone is visible through it
                         *olds[i].gradient_mut() = Some(arr(bd, &vec![1.0; bv.len()]));
                         let seen = p.gradient().is_some();
@@ -155,7 +162,7 @@ impl Case13 {
                     *p.gradient_mut() = Some(arr(p.dimensions(), g));
                 }
             }
-            let olds: Vec<Array> = layer.params.iter().cloned().collect();
+            let olds: Vec<Array> = if self.no_old_clones { vec![] } else { layer.params.iter().cloned().collect() };
             {
                 let mut model = corgi::model::Model::new(vec![&mut layer as &mut dyn corgi::layer::Layer], &gd, &cost);
                 if let Err(p) = guarded(|| model.update()) {
@@ -167,7 +174,7 @@ impl Case13 {
                 let (bd, bv, bt) = &expected[i];
                 let (d, v, t, has_g) = &observed[r][i];
                 let what = format!("round {} parameter {} of {} updated through Model::update (dims {:?}, gradient pattern {:?})", r, i, round.len(), bd, round.iter().map(|x| x.is_some() as u8).collect::<Vec<_>>());
-                if olds[i].dimensions() != &bd[..] || bits(olds[i].values()) != bits(bv) {
+                if !self.no_old_clones && (olds[i].dimensions() != &bd[..] || bits(olds[i].values()) != bits(bv)) {
                     return e("old-handle-changed", format!("{}: an older clone changed", what));
                 }
                 match g {
@@ -218,7 +225,7 @@ impl CaseKind for Case13 {
             }
             k.u(99);
         }
-        k.u((self.lr * 64.0) as i64 as u64).b(self.via_model);
+        k.u((self.lr * 64.0) as i64 as u64).b(self.via_model).b(self.no_old_clones);
         let lens: Vec<usize> = self.params.iter().map(|p| p.vals.len()).collect();
         let mut nontrivial = false;
         for r in &self.rounds {
@@ -278,7 +285,7 @@ fn build(r: &R13, random_lr: Option<f64>) -> Case13 {
         .enumerate()
         .map(|(ri, m)| params.iter().enumerate().map(|(i, p)| { let k = m[i % m.len().max(1)]; if k % 4 == 0 { None } else { Some(grad_vals(ri, i, p.vals.len(), k / 4)) } }).collect())
         .collect();
-    Case13 { lr: random_lr.unwrap_or(LRS[r.lri % LRS.len()]), params, rounds, via_model: r.lri % 3 == 2 }
+    Case13 { lr: random_lr.unwrap_or(LRS[r.lri % LRS.len()]), params, rounds, via_model: r.lri % 3 == 2, no_old_clones: r.lri % 4 == 1 }
 }
 
 pub fn dispatch(kind: &str, v: &Value) -> Option<Outcome> {
@@ -325,6 +332,37 @@ pub fn campaigns(ctx: &Ctx) -> Stats {
         let shapes: Vec<Vec<usize>> = (0..*n).map(|i| vec![1 + (i % 3)]).collect();
         Some(build(&R13 { shapes, tracked: vec![true], masks: vec![(0..*n).map(|i| m1[i % m1.len()] | 1 << (i % 5)).map(|b| if b % 5 == 0 { 0 } else { b }).collect(), (0..*n).map(|i| m2[(i * 7) % m2.len()]).collect()], lri: *lri }, None))
     }));
+    // parameter lists with thousands of values in total (odd and even totals, around powers of two and beyond 2^16):
+    // an optimizer that splits or blocks its work by element count
+    {
+        let lists: Vec<Vec<Vec<usize>>> = vec![
+            vec![vec![65, 63], vec![4], vec![2, 3]],
+            vec![vec![4097]],
+            vec![vec![4096]],
+            vec![vec![5001]],
+            vec![vec![66, 63], vec![63]],
+            vec![vec![70001]],
+            vec![vec![300, 300]],
+            vec![vec![1], vec![4096]],
+            vec![vec![2048], vec![2049]],
+            vec![vec![3], vec![8191], vec![5]],
+            vec![vec![16385], vec![7], vec![16384]],
+            vec![vec![64], vec![8, 8], vec![63], vec![65]],
+            vec![vec![1023], vec![1025], vec![2, 1024]],
+        ];
+        let nl = lists.len() as u64;
+        st.merge(ctx.run_indexed("thousands-of-values", nl * 2 * 2 * 2, None, |i| {
+            let shapes = lists[(i % nl) as usize].clone();
+            let v = i / nl;
+            let np = shapes.len();
+            // round 1: everything but the second parameter steps; round 2: everything
+            let masks: Vec<Vec<u8>> = vec![(0..np).map(|p| if p == 1 { 0 } else { 5 }).collect(), vec![21; np]];
+            let mut c = build(&R13 { shapes, tracked: vec![true], masks, lri: if v & 1 == 0 { 0 } else { 2 } }, None);
+            c.no_old_clones = v & 2 == 2;
+            c.via_model = v & 4 == 4;
+            Some(c)
+        }));
+    }
     st
 }
 
